@@ -221,7 +221,7 @@ fn one_case(ctx: &mut Ctx, idx: usize, w: &World, w2: &World) {
     let amt_s = scalar_of_i64(amount);
     let rels: Vec<&str> = vec!["all-relations-hold", "state-channel-id", "close-state-channel-id", "close-tag", "old-revocation-lock", "new-revocation-locks-differ",
         "claimed-nonce", "customer-balance-state-vs-close", "merchant-balance-state-vs-close", "customer-balance-update", "merchant-balance-update",
-        "customer-range-link", "merchant-range-link", "customer-digit-signature", "token-tampered", "token-other-message", "customer-balance-negative", "merchant-balance-too-large"];
+        "customer-range-link", "merchant-range-link", "customer-digit-signature", "token-tampered", "token-other-message", "customer-balance-negative", "merchant-balance-too-large", "customer-balance-too-large", "merchant-balance-negative"];
     let pick: Vec<usize> = if ctx.thorough() { (0..rels.len()).collect() } else { (0..rels.len()).filter(|r| *r == 0 || r % 3 == idx % 3).collect() };
     for r in pick {
         let mut f = PayForge::honest(ctx, &old, &new, tok, ncb, nmb);
@@ -270,6 +270,19 @@ fn one_case(ctx: &mut Ctx, idx: usize, w: &World, w2: &World) {
                 f.ts_tok[4] = g.ts_tok[4]; f.ts_s[4] = g.ts_s[4]; f.ts_c[4] = g.ts_c[4];
                 let v = Scalar::from(i64::MAX as u64) + Scalar::from(1u64 << 56);
                 f.ms_s[4] = v; f.ms_c[4] = v; f.old[4] = v - amt_s;
+            }
+            "customer-balance-too-large" => {
+                let g = PayForge::honest(ctx, &old, &new, tok, i64::MAX as u64, nmb);
+                f.cb = g.cb; f.cb[8].d = Scalar::from(128u64);
+                f.ts_tok[3] = g.ts_tok[3]; f.ts_s[3] = g.ts_s[3]; f.ts_c[3] = g.ts_c[3];
+                let v = Scalar::from(i64::MAX as u64) + Scalar::from(1u64 << 56);
+                f.ms_s[3] = v; f.ms_c[3] = v; f.old[3] = v + amt_s;
+            }
+            "merchant-balance-negative" => {
+                f.ms_s[4] = -Scalar::one(); f.ms_c[4] = -Scalar::one();
+                f.old[4] = f.ms_s[4] - amt_s;
+                let g = PayForge::honest(ctx, &old, &new, tok, ncb, 0);
+                f.mb = g.mb; f.ts_tok[4] = g.ts_tok[4]; f.ts_s[4] = g.ts_s[4]; f.ts_c[4] = g.ts_c[4];
             }
             _ => {}
         }
